@@ -29,6 +29,9 @@ func VerifSetGuardOnly(on bool) { verifMu.Lock(); verifGuardOnly = on; verifMu.U
 // subsequently opened store; nil restores the default.
 func VerifSetFS(fs vfs.FS) { verifMu.Lock(); verifFS = fs; verifMu.Unlock() }
 
+// VerifDB exposes the underlying Pebble handle (the harness dumps raw keys with it).
+func (s *PebbleScanner) VerifDB() *pebble.DB { return s.db }
+
 func verifGuardProbe(dbPath, resolved string) error {
 	verifMu.Lock()
 	defer verifMu.Unlock()
